@@ -547,9 +547,13 @@ def canaries(run, tier):
     def m3(E):
         def tr(node):
             for n in ast.walk(node):
-                if isinstance(n, ast.Assign) and isinstance(n.targets[0], ast.Name) and n.targets[0].id == "row_dim":
-                    n.value = ast.BinOp(ast.Subscript(ast.Name("original_shape", ast.Load()), ast.Constant(0), ast.Load()),
-                                        ast.FloorDiv(), ast.Name("values_per_item", ast.Load()))
+                # structural, independent of the names of locals: (rows + k - 1) // k  ->  rows // k
+                v = n.value if isinstance(n, ast.Assign) else None
+                if (isinstance(v, ast.BinOp) and isinstance(v.op, ast.FloorDiv) and isinstance(v.left, ast.BinOp) and isinstance(v.left.op, ast.Sub)
+                        and isinstance(v.left.right, ast.Constant) and v.left.right.value == 1 and isinstance(v.left.left, ast.BinOp)
+                        and isinstance(v.left.left.op, ast.Add) and ast.dump(v.left.left.right) == ast.dump(v.right)):
+                    n.value = ast.BinOp(v.left.left.left, ast.FloorDiv(), v.right)
+                    changed["yes"] = True
             return ast.fix_missing_locations(node)
         patch_fn(E, f"{PACKED}::pack_weights", tr)
     r = rt_refuted(mutated_engine(m3), 4, "dense")
